@@ -363,6 +363,25 @@ func (r *Run) consAddrOwner(addr []byte) (int, int, bool) {
 // Execute runs the whole plan. It returns when the plan is exhausted, a violation was
 // recorded, or the run had to be aborted.
 func (r *Run) Execute() {
+	// the repository prints debug lines to os.Stdout from consensus code (fmt.Println in the AVS
+	// precompile and types); keep them out of the check's own output
+	defer quietApp()()
+	r.execute()
+}
+
+// quietApp diverts os.Stdout until the returned function is called.
+func quietApp() func() {
+	if os.Getenv("EXOSIM_APP_STDOUT") == "" {
+		if dn, err := os.OpenFile(os.DevNull, os.O_WRONLY, 0); err == nil {
+			saved := os.Stdout
+			os.Stdout = dn
+			return func() { os.Stdout = saved; dn.Close() }
+		}
+	}
+	return func() {}
+}
+
+func (r *Run) execute() {
 	if !r.Setup() {
 		return
 	}
